@@ -14,6 +14,8 @@ def run(ctx):
     ctx.trusted.append("harness/overlay/broker/zz_verif_broker_test.go scenario driver; lib/checks/brokerlib.py label derivation")
     scens = brokerlib.scenarios(ctx.rng, ctx.tier)
     brokerlib.run_scenarios(ctx, scens, {CID}, "broker-scenarios")
+    # bridge-list FILES through the real line loader and through Model/BrokerBridgeList.v load
+    brokerlib.run_bridge_files(ctx)
 
 
 def replay(ctx, doc):
